@@ -36,8 +36,24 @@ def build():
     u.fn(CS, [CI, 'fn clear'], props='C16', key='ChangeSet::clear',
          requires=[E('wf', 'old(self).wf()')],
          ensures=[E('wf', 'final(self).wf()'), E('empty', 'final(self)@ == Map::<Index, T>::empty()')])
-    # FromIterator::from_iter / Extend::extend (a `for` loop over a generic IntoIterator calling `add` per pair): not under contract —
-    # Verus has no iteration laws for an arbitrary generic iterator; `add` itself is.
+    # FromIterator::from_iter / Extend::extend: a `for` loop over a generic IntoIterator calling `add` per pair. Verus has no iteration laws for
+    # an arbitrary generic iterator, so the type parameter `I` is INSTANTIATED at Vec<(Entity, T)> (N8); the result is the fold of the pairs in
+    # arrival order
+    FOLD_INV = lambda base: [E('wf', 'CS.wf()'.replace('CS', base[0])),
+                             E('fold', '%s@ == cs_fold(%s, cs_pairs(iter@.subrange(0, it.index@ as int)))' % (base[0], base[1])),
+                             E('seq', 'it.seq() == iter@')]
+    STEP_HINT = lambda cur, base: ('before', '%s.add(entity, d)' % cur, 'proof { let k = it.index@ as int; assert(iter@.subrange(0, k + 1) =~= iter@.subrange(0, k).push(iter@[k])); assert(cs_pairs(iter@.subrange(0, k + 1)) =~= cs_pairs(iter@.subrange(0, k)).push((iter@[k].0.0, iter@[k].1))); lemma_fold_push(%s, cs_pairs(iter@.subrange(0, k)), iter@[k].0.0, iter@[k].1); }' % base)
+    u.fn(CS, ['impl<T> Extend<(Entity, T)> for ChangeSet<T>', 'fn extend'], props='C16', key='ChangeSet::extend', impl_header='impl<T: AddAssign> ChangeSet<T>', n16=True,
+         rules=[('N8', r'fn extend<I: IntoIterator<Item = \(Entity, T\)>>\(&mut self, iter: I\)', 'fn extend(&mut self, iter: Vec<(Entity, T)>)')],
+         requires=[E('wf', 'old(self).wf()')],
+         ensures=[E('wf', 'final(self).wf()'), E('fold', 'final(self)@ == cs_fold(old(self)@, cs_pairs(iter@))')],
+         loops={0: dict(iter_name='it', invariant=FOLD_INV(('self', 'old(self)@')))},
+         hints=[STEP_HINT('self', 'old(self)@'), ('after_loop', 0, 'proof { assert(iter@.subrange(0, iter@.len() as int) =~= iter@); }')])
+    u.fn(CS, ['impl<T> FromIterator<(Entity, T)> for ChangeSet<T>', 'fn from_iter'], ret='r', props='C16', key='ChangeSet::from_iter', impl_header='impl<T: AddAssign> ChangeSet<T>',
+         rules=[('N8', r'fn from_iter<I: IntoIterator<Item = \(Entity, T\)>>\(iter: I\)', 'fn from_iter(iter: Vec<(Entity, T)>)')],
+         ensures=[E('wf', 'r.wf()'), E('fold', 'r@ == cs_fold(Map::<Index, T>::empty(), cs_pairs(iter@))')],
+         loops={0: dict(iter_name='it', invariant=FOLD_INV(('changeset', 'Map::<Index, T>::empty()')))},
+         hints=[STEP_HINT('changeset', 'Map::<Index, T>::empty()'), ('after_loop', 0, 'proof { assert(iter@.subrange(0, iter@.len() as int) =~= iter@); }')])
     # ---- join members of the change set
     def member(gname, header, pre_file, path_hdr, trait):
         pre = open(os.path.join(_here, '..', 'join', 'members', pre_file)).read()
